@@ -32,7 +32,7 @@ pub fn def() -> CheckDef {
         runs_quick: 600_000,
         runs_thorough: 15_000_000,
         rule: "fault injection of contract-violating calls: each of the seven rejected-call kinds is enumerated over every public type that exposes it (cts x6, block modes x12, async x4, byte streams x8, padded decrypt x6 with 5 paddings and 3 forms, four slice constructors over all types) with sampled sizes/positions, inside otherwise valid histories; plus a no-panic sweep of legal histories (every op alphabet, lengths 0,1,bs-1,bs,bs+1,many, block sizes 1..255, all IV classes, counter positions across the whole range, restart from valid exported state). distinct = distinct (fault kind, type, block size, cipher, sizes class, history shape); non-trivial = the injected call was executed (a) / >= 2 operations (b)",
-        required_probes: &["cts_short", "cts_exactly_one_block_ok", "blocks_b2b_unequal", "async_b2b_unequal", "stream_b2b_unequal", "cts_b2b_unequal", "padded_dec_bad_len", "ctor_bad_key", "ctor_bad_iv", "ctor_ige_one_block_iv", "sweep_seek_far", "sweep_restart", "sweep_padded", "sweep_bs255", "sweep_bs1", "sweep_cts_valid_lengths", "sweep_cts_width_1"],
+        required_probes: &["cts_short", "cts_exactly_one_block_ok", "blocks_b2b_unequal", "async_b2b_unequal", "stream_b2b_unequal", "cts_b2b_unequal", "padded_dec_bad_len", "ctor_bad_key", "ctor_bad_iv", "ctor_ige_one_block_iv", "sweep_seek_far", "sweep_restart", "sweep_padded", "sweep_bs255", "sweep_bs1", "sweep_cts_valid_lengths", "sweep_cts_width_1", "sweep_seek_at_end"],
         r#gen,
         exec,
         components: "real code: all nine crates and cipher's front ends; stub: block cipher in most runs, real ciphers in the rest; every run under catch_unwind (a panic raised by the code under test is a violation, one raised by the harness a harness error)",
@@ -176,6 +176,21 @@ fn r#gen(rng: &mut Rng, thorough: bool) -> Scn {
                     _ => gen_data_op(rng, fam, mode, s.bs, w),
                 };
                 s.ops.push(op);
+            }
+            if fam == FAM_STREAM && lim < (1u128 << 100) && rng.chance(1, 5) {
+                // closing try_seek at or just past the end of the keystream: whatever it returns,
+                // it may not panic.  Last operation only - the state afterwards is not used.
+                let bsz = s.bs as u128;
+                let end = lim * bsz;
+                let p = match rng.below(6) {
+                    0 => end,
+                    1 => end + 1,
+                    2 => end + bsz - 1,
+                    3 => end + rng.below(s.bs as u64) as u128,
+                    4 => end + bsz + rng.below(2 * s.bs as u64) as u128,
+                    _ => end - 1 - rng.below(3 * s.bs as u64) as u128, // just below the limit
+                };
+                s.ops.push(Op::new("seek").p(p).ty(rng.below(2) as u8));
             }
             if fam == FAM_BLOCK && rng.chance(1, 2) {
                 let g = if mode.starts_with("cfb8") { 1 } else { s.bs as u64 };
@@ -526,7 +541,12 @@ fn exec(scn: &Scn, ctx: &mut Ctx) -> Verdict {
                     }
                     "seek" => {
                         if op.p / bs as u128 >= lim {
-                            invalid!("beyond keystream");
+                            // at or past the end of the keystream: allowed as the closing operation
+                            // only (Ok or Err, but no panic); the state afterwards is never used
+                            if i + 1 != scn.ops.len() {
+                                invalid!("beyond keystream");
+                            }
+                            ctx.probe("sweep_seek_at_end");
                         }
                         ctx.probe_if(op.p > u32::MAX as u128, "sweep_seek_far");
                         if let Err(e) = inst.step(op, &[], Vec::new()) {
